@@ -183,7 +183,8 @@ def run_group_case(scan, ast, N, blanks, agg):
 
     cps.reset_sandbox()
     cs = env.new_csvpaths()
-    rows = [[] if i in blanks else [f"r{i}", "D:\\" if i == 1 else "x"] for i in range(N)]
+    # (records repeat in pairs here: lines are told apart by their position, not by what they hold)
+    rows = [[] if i in blanks else [f"g{i // 2}", "D:\\" if i == 1 else "x"] for i in range(N)]
     cps.add_file(cs, "data", rows)
     cs.paths_manager.add_named_paths(name="g", paths=[f'~ id: m0 ~ $[{scan}][push("ls", line_number())]', "~ id: m1 ~ $[*][yes()]"])
     nonblank = [i for i in range(N) if i not in blanks]
@@ -208,6 +209,12 @@ def run_group_case(scan, ast, N, blanks, agg):
             problems.append(("line_number()", list(m0.variables.get("ls", [])), exp))
         if m0.scan_count != len(exp) or m0.match_count != len(exp):
             problems.append(("scan_count/match_count", [m0.scan_count, m0.match_count], len(exp)))
+        if method in ("collect_by_line", "next_by_line"):
+            # the second member keeps every record: the run hands back every non-blank record, each once, in file order
+            want = [rows[i] for i in nonblank]
+            got = [[str(x) for x in ln] for ln in (lines or [])]
+            if got != want:
+                problems.append(("returned-lines", got[:8], want[:8]))
         if problems:
             w["problems"] = problems
             return "group:" + problems[0][0] + ":" + ("serial" if method in cps.SERIAL else "by_line"), w
